@@ -707,8 +707,50 @@ FolSyntaxCase(n, sd) ==
      ELSE IF k = 2 THEN [id |-> "fs" \o ToString(n), as |-> "specification", text |-> a1.s \o " " \o a2.s]
      ELSE [id |-> "fs" \o ToString(n), as |-> "user-guide", text |-> u1.s \o " " \o u2.s \o " " \o u3.s]
 
+\* ---------------------------------------------------------------- proof outlines (C13)
+\* 1 - 4 entries named e1..e4 over lemmas, inductive lemmas and definitions with every direction annotation; each pool mixes
+\* acceptable entries with entries that violate exactly one acceptance condition
+ODir == <<"", "", "(forward)", "(backward)", "(universal)">>
+OEntry(sd, K) ==
+  LET c == Val(sd) % 100
+      d == Pick(Nx(sd), ODir)
+      nm == "[e" \o ToString(K) \o "]"
+      dk == "d" \o ToString(K)
+      dj == "d" \o ToString(1 + (Val(Mix(sd, 3)) % 4))
+      lem == <<"forall X (p(X) -> q(X))", "forall X (p(X) -> X > 0)", "exists X q(X) -> exists Y (q(Y) and (p(Y) or Y <= 0))", "p(X) -> q(X)",
+               "forall X (" \o dj \o "(X) -> q(X))", "forall X (q(X) and X > 1 -> " \o dj \o "(X))", "forall X Y (p(X) and p(Y) and X < Y -> q(Y))", "not p(0)">>
+      ind == <<"forall N$i (N$i >= 0 -> (q(N$i) -> p(N$i) or N$i = 0))", "forall N$i (N$i >= -1 -> (p(N$i) -> q(N$i)))",
+               "forall X N$i (N$i >= 1 -> (q(X) and X = N$i -> p(N$i)))", "forall N$i (N$i >= 0 -> (exists N$i q(N$i)) or p(N$i) or not q(N$i))",
+               "N$i >= 0 -> (q(N$i) -> p(N$i) or N$i < 1)", "forall N$i (N$i >= 2 -> (p(N$i) -> " \o dj \o "(N$i) or q(N$i)))",
+               "forall N$i (N$i >= 0 -> forall X (X = N$i + 1 and q(X) -> p(X)))", "forall N$i M$i (N$i >= 0 -> (q(N$i + M$i) and N$i + M$i > 0 -> p(N$i + M$i)))",
+               \* malformed
+               "forall N$i (N$i > 0 -> (q(N$i) -> p(N$i)))", "forall N$i M$i (N$i >= M$i -> (q(N$i) -> p(N$i)))", "forall N$i X (N$i >= 0 -> (q(N$i) -> p(N$i)))",
+               "forall X (X >= 0 -> (q(X) -> p(X)))", "forall N$i (0 <= N$i -> (q(N$i) -> p(N$i)))", "forall N$i (N$i >= 0 -> q(1))",
+               "forall N$i (0 <= N$i >= 0 -> p(N$i))", "forall N$i (N$i >= 0 and q(N$i) -> p(N$i))">>
+      def == <<"forall X (" \o dk \o "(X) <-> q(X) and X > 1)", "forall X (" \o dk \o "(X) <-> " \o dj \o "(X) or p(X))", "forall X Y (" \o dk \o "(X, Y) <-> q(X) and p(Y))",
+               "forall X$i (" \o dk \o "(X$i) <-> q(X$i + 1))", "forall X (" \o dk \o "(X) <-> exists Y (q(Y) and Y < X))",
+               \* unacceptable
+               "forall X (p(X) <-> q(X))", "forall X X (" \o dk \o "(X, X) <-> q(X))", "forall X (" \o dk \o "(X, 1) <-> q(X))", "forall X Y (" \o dk \o "(X) <-> q(X))",
+               "forall X (" \o dk \o "(X) <-> q(X) and q(Y))", dk \o " <-> q(1)", "forall X (" \o dk \o "(X) -> q(X))", "forall X (" \o dk \o "(X) <-> not " \o dk \o "(X))",
+               "forall X (" \o dk \o "(X) <-> undefined_pred(X))", "forall X (q(X) <-> " \o dk \o "(X))", "forall X (" \o dk \o "(X$i) <-> q(X))",
+               "forall X (aux(X) <-> q(X))">>
+  IN IF c < 36 THEN "lemma" \o d \o nm \o ": " \o Pick(Mix(sd, 1), lem) \o "."
+     ELSE IF c < 62 THEN "inductive-lemma" \o d \o nm \o ": " \o Pick(Mix(sd, 1), ind) \o "."
+     ELSE IF c < 96 THEN "definition" \o d \o nm \o ": " \o Pick(Mix(sd, 1), def) \o "."
+     ELSE Pick(Mix(sd, 1), <<"spec", "assumption">>) \o d \o nm \o ": p(1)."
+RECURSIVE OEntries(_, _, _)
+OEntries(sd, k, n) == IF k > n THEN "" ELSE OEntry(sd, k) \o " " \o OEntries(Mix(sd, k), k + 1, n)
+OutlineCase(n, sd) ==
+  LET cnt == 1 + (Val(sd) % 4)
+      base == n % 3
+  IN [id |-> "po" \o ToString(n), task |-> "external",
+      left |-> IF base = 2 THEN "aux(X) :- q(X), X > 0. p(X) :- aux(X)." ELSE "p(X) :- q(X), X > 0.",
+      right |-> IF base = 0 THEN "p(X) :- q(X), 0 < X." ELSE "p(X) :- q(X), X >= 1.",
+      ug |-> "input: q/1. output: p/1.", po |-> OEntries(Nx(sd), 1, cnt)]
+
 Case(n, sd) ==
   CASE Mode = "program" -> ProgramCase(n, sd)
+    [] Mode = "outline" -> OutlineCase(n, sd)
     [] Mode = "aspsyntax" -> AspSyntaxCase(n, sd)
     [] Mode = "folsyntax" -> FolSyntaxCase(n, sd)
     [] Mode = "ident" -> IdentCase(n, sd)
